@@ -305,6 +305,19 @@ def defuse_scoping(reg, tier):
     return d['results']
 
 
+def bounded_hoisting(tier, seed):
+    """BOUNDED stand-in (never counted as proved) for a part of the chain no contract covers: the frontend's declaration-hoisting pass (events/default_event_handlers/
+    add_var_decl.py) that decides which scope a local's declaration lands in. One program through the real parser, hoisting, flattening, scope hierarchy and resolver."""
+    from lianvc import runner
+    out, err = runner.run_replay(REPLAY, ['--bounded', '1'], timeout=900)
+    if out is None:
+        return dict(name='declaration hoisting + scope tables + resolver vs Python scoping (one program)', failed=True, is_violation=False, detail=err, bound='one program')
+    return dict(name='declaration hoisting + scope tables + resolver vs Python scoping (one program)', kind='bounded', bound=out.get('bound'), cases=out.get('cases'),
+                failed=bool(out.get('witnesses')), is_violation=True, detail=out.get('witnesses', [])[:2], failing_input=(out.get('witnesses') or [None])[0])
+
+
+bounded_hoisting.quick = True
+BOUNDED_CHECKS = [bounded_hoisting]
 EXTRA_OBLIGATIONS = [chain_lemma, defuse_scoping]
 
 ASSUMPTIONS = [
